@@ -157,3 +157,198 @@ Theorem accepted_token_lines_in_range :
 Proof. exact ErrRange.accepted_token_lines_in_range. Qed.
 Print Assumptions accepted_token_lines_in_range.
 
+
+(* ---- 'lint mode accepts every program normal mode accepts and never fails because switches or fonts are missing'
+   (LintAccepts.v; lint mode = env_errors false, no switches, no font configuration, the same command configuration).
+   lint_accepts_what_normal_accepts: for EVERY token list; env_errors_off_accepts_more: the general form (any mode and
+   configuration on the left, any switches and fonts with environment errors off on the right);
+   lint_never_fails_for_missing_environment: no error of the lint parser is one of the four environment errors;
+   compilation_error_is_environment_or_name_clash_or_lint_error: every error of a compilation is an environment error, a name
+   clash, or EXACTLY the linter's error (same message, same position); lint_error_is_an_error_of_every_compilation,
+   lint_error_explained, lint_answer. (The first attempt to state the first theorem by hand found defect D20.) ---- *)
+From Pory Require Import LintAccepts. Open Scope list_scope. Open Scope Z_scope.
+Theorem lint_accepts_what_normal_accepts :
+  forall (autovars : list (text * autovar)) (switches : list (text * text)) (fc : fontcfg) (cli_font : text) (cli_maxlen : Z) 
+    (ts : toks) (p : program),
+  parse_program autovars switches true (parse_format fc cli_font cli_maxlen true) ts = Ok p ->
+  exists p' : program, parse_program autovars [] false (parse_format fc_none [] 0 false) ts = Ok p'.
+Proof. exact LintAccepts.lint_accepts_what_normal_accepts. Qed.
+Print Assumptions lint_accepts_what_normal_accepts.
+
+Theorem env_errors_off_accepts_more :
+  forall (autovars : list (text * autovar)) (sw : list (text * text)) (ee : bool) (fc : fontcfg) (cli_font : text) (cli_maxlen : Z)
+    (sw' : list (text * text)) (fc' : fontcfg) (cli_font' : text) (cli_maxlen' : Z) (ts : toks) (p : program),
+  parse_program autovars sw ee (parse_format fc cli_font cli_maxlen ee) ts = Ok p ->
+  exists p' : program, parse_program autovars sw' false (parse_format fc' cli_font' cli_maxlen' false) ts = Ok p'.
+Proof. exact LintAccepts.env_errors_off_accepts_more. Qed.
+Print Assumptions env_errors_off_accepts_more.
+
+Theorem lint_never_fails_for_missing_environment :
+  forall (autovars : list (text * autovar)) (switches : list (text * text)) (fc : fontcfg) (cli_font : text) (cli_maxlen : Z) 
+    (ts : toks) (e : perr),
+  parse_program autovars switches false (parse_format fc cli_font cli_maxlen false) ts = Err e -> ~ In (emsg e) env_messages.
+Proof. exact LintAccepts.lint_never_fails_for_missing_environment. Qed.
+Print Assumptions lint_never_fails_for_missing_environment.
+
+Theorem compilation_error_is_environment_or_name_clash_or_lint_error :
+  forall (autovars : list (text * autovar)) (sw : list (text * text)) (ee : bool) (fc : fontcfg) (cli_font : text) (cli_maxlen : Z)
+    (sw' : list (text * text)) (fc' : fontcfg) (cli_font' : text) (cli_maxlen' : Z) (ts : toks) (e : perr),
+  parse_program autovars sw ee (parse_format fc cli_font cli_maxlen ee) ts = Err e ->
+  In (emsg e) env_messages \/
+  In (emsg e) name_clash_messages \/ parse_program autovars sw' false (parse_format fc' cli_font' cli_maxlen' false) ts = Err e.
+Proof. exact LintAccepts.compilation_error_is_environment_or_name_clash_or_lint_error. Qed.
+Print Assumptions compilation_error_is_environment_or_name_clash_or_lint_error.
+
+Theorem lint_error_is_an_error_of_every_compilation :
+  forall (hl hd hs : N -> bool) (autovars : list (text * autovar)) (src : text) (e : perr),
+  parse_program autovars [] false (parse_format fc_none [] 0 false) (lex hl hd hs src) = Err e ->
+  forall (switches : list (text * text)) (fc : fontcfg) (cli_font : text) (cli_maxlen : Z),
+  exists e' : perr, parse_program autovars switches true (parse_format fc cli_font cli_maxlen true) (lex hl hd hs src) = Err e'.
+Proof. exact LintAccepts.lint_error_is_an_error_of_every_compilation. Qed.
+Print Assumptions lint_error_is_an_error_of_every_compilation.
+
+Theorem lint_error_explained :
+  forall (hl hd hs : N -> bool) (autovars : list (text * autovar)) (src : text) (e : perr),
+  parse_program autovars [] false (parse_format fc_none [] 0 false) (lex hl hd hs src) = Err e ->
+  forall (switches : list (text * text)) (fc : fontcfg) (cli_font : text) (cli_maxlen : Z),
+  exists e' : perr,
+    parse_program autovars switches true (parse_format fc cli_font cli_maxlen true) (lex hl hd hs src) = Err e' /\
+    (e' = e \/ In (emsg e') env_messages \/ In (emsg e') name_clash_messages).
+Proof. exact LintAccepts.lint_error_explained. Qed.
+Print Assumptions lint_error_explained.
+
+Theorem lint_answer :
+  forall (hl hd hs : N -> bool) (autovars : list (text * autovar)) (src : text),
+  (exists p : program, parse_program autovars [] false (parse_format fc_none [] 0 false) (lex hl hd hs src) = Ok p) \/
+  (exists e : perr, parse_program autovars [] false (parse_format fc_none [] 0 false) (lex hl hd hs src) = Err e /\ ~ In (emsg e) env_messages).
+Proof. exact LintAccepts.lint_answer. Qed.
+Print Assumptions lint_answer.
+
+
+(* ---- the emitter answers too (EmitTotal.v). work_fuel_monotone / work_answers_agree: the worklist's fuel is a proof device;
+   wstep_decreases / work_terminates: every step decreases an explicit weight of the pending statements (mu_body body <= 1 + 3 *
+   number of syntax nodes); work_scoped_no_break_error: a well-scoped body never makes the worklist fail on break / continue;
+   emit_graph_total: every well-scoped body that fits the model's fixed fuel (10000 steps) gets its chunk graph;
+   emit_program_total, compile_total; accepted_bodies_fit_tokens: the weight of every accepted body is at most the number of
+   tokens of the source, hence compile_total_tokens: EVERY source of fewer than 10000 tokens, in every configuration and mode, is
+   answered with output or a located error - never Panic, Fuel or an internal emitter error;
+   compile_never_panics_nor_parser_fuel (unconditional); compile_emit_error_needs_many_tokens. The fixed fuel is a limit of the
+   model only (ex_bound_matters), not of the Go code. ---- *)
+From Pory Require Import Emitter EmitTotal. Open Scope list_scope. Open Scope Z_scope.
+Theorem work_fuel_monotone :
+  forall (k f : nat) (w : wst) (r : res wst), work f w = r -> r <> OutOfFuel -> work (f + k) w = r.
+Proof. exact EmitTotal.work_fuel_monotone. Qed.
+Print Assumptions work_fuel_monotone.
+
+Theorem work_answers_agree :
+  forall (f1 f2 : nat) (w : wst), work f1 w <> OutOfFuel -> work f2 w <> OutOfFuel -> work f1 w = work f2 w.
+Proof. exact EmitTotal.work_answers_agree. Qed.
+Print Assumptions work_answers_agree.
+
+Theorem wstep_decreases :
+  forall (w : wst) (fin : chunk) (news : list chunk) (c' : Z) (nt : option (nat * Z * Z)),
+  Worklist.wstep w = Worklist.SNext fin news c' nt -> (mu (Worklist.wnext w fin news c' nt) < mu w)%nat.
+Proof. exact EmitTotal.wstep_decreases. Qed.
+Print Assumptions wstep_decreases.
+
+Theorem work_terminates :
+  forall (f : nat) (w : wst), (mu w < f)%nat -> work f w <> OutOfFuel.
+Proof. exact EmitTotal.work_terminates. Qed.
+Print Assumptions work_terminates.
+
+Theorem work_fuel_independent :
+  forall (f1 f2 : nat) (w : wst), (mu w < f1)%nat -> (mu w < f2)%nat -> work f1 w = work f2 w.
+Proof. exact EmitTotal.work_fuel_independent. Qed.
+Print Assumptions work_fuel_independent.
+
+Theorem mu_body_le_nodes :
+  forall body : list stmt, (mu_body body <= 1 + 3 * nodes body)%nat.
+Proof. exact EmitTotal.mu_body_le_nodes. Qed.
+Print Assumptions mu_body_le_nodes.
+
+Theorem work_scoped_no_break_error :
+  forall (f : nat) (w : wst), SInv w -> work f w <> ErrBreak /\ work f w <> ErrContinue.
+Proof. exact EmitTotal.work_scoped_no_break_error. Qed.
+Print Assumptions work_scoped_no_break_error.
+
+Theorem work_total :
+  forall (body : list stmt) (f : nat), Tr.scoped None None body -> (mu_body body < f)%nat -> exists w : wst, work f (w0 body) = Ok w.
+Proof. exact EmitTotal.work_total. Qed.
+Print Assumptions work_total.
+
+Theorem emit_graph_total :
+  forall body : list stmt, Tr.scoped None None body -> (mu_body body < work_fuel)%nat -> exists w : wst, emit_graph body = Ok w.
+Proof. exact EmitTotal.emit_graph_total. Qed.
+Print Assumptions emit_graph_total.
+
+Theorem emit_graph_total_small :
+  forall body : list stmt, Tr.scoped None None body -> (nodes body <= 3332)%nat -> exists w : wst, emit_graph body = Ok w.
+Proof. exact EmitTotal.emit_graph_total_small. Qed.
+Print Assumptions emit_graph_total_small.
+
+Theorem emit_graph_fuel_irrelevant :
+  forall (body : list stmt) (f : nat), (mu_body body < work_fuel)%nat -> (mu_body body < f)%nat -> work f (w0 body) = emit_graph body.
+Proof. exact EmitTotal.emit_graph_fuel_irrelevant. Qed.
+Print Assumptions emit_graph_fuel_irrelevant.
+
+Theorem emit_program_total :
+  forall (optimize : bool) (mp : option text) (p : program),
+  Forall (Tr.scoped None None) (ProgWf.bodies_of (tops p)) ->
+  bodies_fit p ->
+  (exists out : text, emit_program optimize mp p = Ok out) \/ (exists (tk : token) (b : bool), emit_program optimize mp p = ErrLabel tk b).
+Proof. exact EmitTotal.emit_program_total. Qed.
+Print Assumptions emit_program_total.
+
+Theorem compile_never_panics_nor_parser_fuel :
+  forall (hl hd hs : N -> bool) (autovars : list (text * autovar)) (switches : list (text * text)) (ee : bool) (fc : fontcfg) 
+    (cli_font : text) (cli_maxlen : Z) (optimize : bool) (mpath : option text) (src : text),
+  Compile.compile hl hd hs autovars switches ee fc cli_font cli_maxlen optimize mpath src <> Compile.OutPanic /\
+  Compile.compile hl hd hs autovars switches ee fc cli_font cli_maxlen optimize mpath src <> Compile.OutFuel.
+Proof. exact EmitTotal.compile_never_panics_nor_parser_fuel. Qed.
+Print Assumptions compile_never_panics_nor_parser_fuel.
+
+Theorem compile_total :
+  forall (hl hd hs : N -> bool) (autovars : list (text * autovar)) (switches : list (text * text)) (ee : bool) (fc : fontcfg) 
+    (cli_font : text) (cli_maxlen : Z) (optimize : bool) (mpath : option text) (src : text),
+  (forall p : program,
+   parse_program autovars switches ee (parse_format fc cli_font cli_maxlen ee) (lex hl hd hs src) = Parser.Ok p -> bodies_fit p) ->
+  (exists out : text, Compile.compile hl hd hs autovars switches ee fc cli_font cli_maxlen optimize mpath src = Compile.OutText out) \/
+  (exists e : perr, Compile.compile hl hd hs autovars switches ee fc cli_font cli_maxlen optimize mpath src = Compile.OutErr e).
+Proof. exact EmitTotal.compile_total. Qed.
+Print Assumptions compile_total.
+
+Theorem compile_emit_error_only_oversize :
+  forall (hl hd hs : N -> bool) (autovars : list (text * autovar)) (switches : list (text * text)) (ee : bool) (fc : fontcfg) 
+    (cli_font : text) (cli_maxlen : Z) (optimize : bool) (mpath : option text) (src : text),
+  Compile.compile hl hd hs autovars switches ee fc cli_font cli_maxlen optimize mpath src = Compile.OutEmitErr ->
+  exists (p : program) (b : list stmt),
+    parse_program autovars switches ee (parse_format fc cli_font cli_maxlen ee) (lex hl hd hs src) = Parser.Ok p /\
+    In b (ProgWf.bodies_of (tops p)) /\ (work_fuel <= mu_body b)%nat.
+Proof. exact EmitTotal.compile_emit_error_only_oversize. Qed.
+Print Assumptions compile_emit_error_only_oversize.
+
+Theorem accepted_bodies_fit_tokens :
+  forall (hl hd hs : N -> bool) (autovars : list (text * autovar)) (switches : list (text * text)) (ee : bool) (fc : fontcfg) 
+    (cli_font : text) (cli_maxlen : Z) (src : text) (p : program),
+  parse_program autovars switches ee (parse_format fc cli_font cli_maxlen ee) (lex hl hd hs src) = Parser.Ok p ->
+  Forall (fun b : list stmt => (mu_body b <= len (lex hl hd hs src))%nat) (ProgWf.bodies_of (tops p)).
+Proof. exact EmitTotal.accepted_bodies_fit_tokens. Qed.
+Print Assumptions accepted_bodies_fit_tokens.
+
+Theorem compile_total_tokens :
+  forall (hl hd hs : N -> bool) (autovars : list (text * autovar)) (switches : list (text * text)) (ee : bool) (fc : fontcfg) 
+    (cli_font : text) (cli_maxlen : Z) (optimize : bool) (mpath : option text) (src : text),
+  (len (lex hl hd hs src) < work_fuel)%nat ->
+  (exists out : text, Compile.compile hl hd hs autovars switches ee fc cli_font cli_maxlen optimize mpath src = Compile.OutText out) \/
+  (exists e : perr, Compile.compile hl hd hs autovars switches ee fc cli_font cli_maxlen optimize mpath src = Compile.OutErr e).
+Proof. exact EmitTotal.compile_total_tokens. Qed.
+Print Assumptions compile_total_tokens.
+
+Theorem compile_emit_error_needs_many_tokens :
+  forall (hl hd hs : N -> bool) (autovars : list (text * autovar)) (switches : list (text * text)) (ee : bool) (fc : fontcfg) 
+    (cli_font : text) (cli_maxlen : Z) (optimize : bool) (mpath : option text) (src : text),
+  Compile.compile hl hd hs autovars switches ee fc cli_font cli_maxlen optimize mpath src = Compile.OutEmitErr ->
+  (work_fuel <= len (lex hl hd hs src))%nat.
+Proof. exact EmitTotal.compile_emit_error_needs_many_tokens. Qed.
+Print Assumptions compile_emit_error_needs_many_tokens.
+
